@@ -35,6 +35,8 @@ namespace Edzed.Lifecycle
 inductive Kind where
   | sync      -- SBlock with start/stop only (probe)
   | async     -- AddonMainTask block: main task, optional init_async, stop_async (probe)
+  | ainit     -- AddonAsync block with init_async only: no task, no stop_async (InitAsync, AddonAsyncInit)
+  | aplain    -- AddonAsync block with stop_async but without a task; stop_timeout may be 0
   | cblock    -- combinational block
   | timer     -- FSM with a timer (edzed.Timer)
   | outf      -- OutputFunc
@@ -72,17 +74,26 @@ structure Blk where
 
 inductive CauseKind where
   | shutdown | abort | ctrlShutdown | ctrlAbort | sigterm | supportEnd | supportFail | handlerErr
+  -- control events sent from INSIDE the simulator task: on_output of a CBlock evaluated by
+  -- `_simulate` -> … -> `_ctrl`; abort() cancels the running task, the CancelledError is pending
+  | innerShutdown | innerAbort
   deriving DecidableEq, Repr, Inhabited
 
 def CauseKind.isError : CauseKind → Bool
   -- a failing supporting task makes run() shut the circuit down normally (and raise afterwards)
-  | .abort | .ctrlAbort | .handlerErr => true
+  | .abort | .ctrlAbort | .handlerErr | .innerAbort => true
+  | _ => false
+
+def CauseKind.isInner : CauseKind → Bool
+  | .innerShutdown | .innerAbort => true
   | _ => false
 
 structure Cause where
   kind : CauseKind := .shutdown
   before : Bool := false        -- abort() called before run_forever was started
   time : Nat := 0               -- instant of the request
+  raiseAfter : Bool := false    -- inner causes: an ordinary exception (the next evaluated CBlock
+                                -- raises) ends the try block before the task awaits anything
   late : Bool := false          -- a further request arrives during the clean-up (abort() ignores it)
   deriving Repr, Inhabited
 
@@ -187,7 +198,8 @@ def awaitJobs (limit : Option Nat) : Nat → List Job → List JobEnd × Nat × 
 def Blk.hasMain (b : Blk) : Bool := b.kind == .async
 def Blk.hasCtrl (b : Blk) : Bool := b.kind == .outa
 /-- `_stop_sblocks`: AddonAsync block with a stop_async method and stop_timeout > 0 -/
-def Blk.asyncStop (b : Blk) : Bool := (b.kind == .async || b.kind == .outa) && decide (0 < b.stopTimeout)
+def Blk.asyncStop (b : Blk) : Bool :=
+  (b.kind == .async || b.kind == .outa || b.kind == .aplain) && decide (0 < b.stopTimeout)
 
 /-- the `for blk in getblocks(): blk.start(); started_blocks.add(blk)` loop over the blocks
     `i, i+1, …`: events, started blocks, whether a start() raised -/
@@ -209,7 +221,7 @@ def Blk.restoredOk (b : Blk) : Bool := b.restored && !b.fRestore
 
 /-- init_async is run: AddonAsync block not yet initialised, init_timeout > 0 -/
 def Blk.wantsInitAsync (b : Blk) : Bool :=
-  b.kind == .async && b.hasInitAsync && !b.restoredOk && decide (0 < b.initTimeout)
+  (b.kind == .async || b.kind == .ainit) && b.hasInitAsync && !b.restoredOk && decide (0 < b.initTimeout)
 
 def initJobs (bs : List Blk) : List Job :=
   (enum bs).filterMap fun (k, b) =>
@@ -280,7 +292,8 @@ def stopJob (bs : List Blk) (failed : List Nat) (inited : List Nat) (k : Nat) : 
   else ⟨k, some (b.cancelDur + b.stopDur), b.stopTimeout, !b.fStopAsync⟩
 
 def immediate (bs : List Blk) (failed : List Nat) (inited : List Nat) (k : Nat) : Bool :=
-  ((blk bs k).kind == .outa || failed.contains k) && (stopJob bs failed inited k).dur == some 0
+  ((blk bs k).kind == .outa || (blk bs k).kind == .aplain || failed.contains k)
+    && (stopJob bs failed inited k).dur == some 0
 
 /-- how a stop_async task ends as seen from inside: `OutputAsync.stop_async` swallows the
     CancelledError of the time-out (`except CancelledError: pass` around the awaited control
@@ -385,6 +398,7 @@ structure Plan where
   puts : List Ev              -- output functions called by the running circuit
   timers : List Nat           -- timer handles pending when the clean-up begins
   helper : Bool               -- wait_init() is still waiting
+  pendingCancel : Bool        -- a cancellation of the simulation task is still to be delivered
   deriving Repr, Inhabited
 
 def plan (c : Cfg) : Plan :=
@@ -394,10 +408,10 @@ def plan (c : Cfg) : Plan :=
   let startFailed := sl.2.2
   -- who terminates the simulation if start-up and initialisation succeed: the external
   -- request or the first failing main task (`_task_monitor` calls abort())
-  let ext : Nat × Bool :=
+  let ext : Nat × Bool × Bool :=        -- instant, is an error, is the request of the scenario
     match firstMainFail bs started with
-    | some (t, _) => if t < c.cause.time then (t, true) else (c.cause.time, c.cause.kind.isError)
-    | none => (c.cause.time, c.cause.kind.isError)
+    | some (t, _) => if t < c.cause.time then (t, true, false) else (c.cause.time, c.cause.kind.isError, true)
+    | none => (c.cause.time, c.cause.kind.isError, true)
   let tX := ext.1
   -- initialisation
   let ir := awaitJobs (some tX) 0 (sortJobs (initJobs bs))
@@ -408,11 +422,11 @@ def plan (c : Cfg) : Plan :=
   -- phase in which the simulation was terminated, instant, error?, init results
   let term : Phase × Nat × Bool × List JobEnd :=
     if startFailed then (.startFailed, 0, true, [])
-    else if tX == 0 then (.afterStart, 0, ext.2, [])
-    else if ir.2.2 then (.asyncInit, tX, ext.2, ir.1)
+    else if tX == 0 then (.afterStart, 0, ext.2.1, [])
+    else if ir.2.2 then (.asyncInit, tX, ext.2.1, ir.1)
     else if s2.2 || !allInit then (.initFailed, ir.2.1, true, ir.1)
     else if calcFails then (.evalFailed, ir.2.1, true, ir.1)
-    else (.running, tX, ext.2, ir.1)
+    else (.running, tX, ext.2.1, ir.1)
   let phase := term.1
   let tT := term.2.1
   let failed := started.filter fun k => (blk bs k).kind == .async &&
@@ -426,17 +440,36 @@ def plan (c : Cfg) : Plan :=
   { startEvs := sl.1, started := started, phase := phase, termTime := tT, isError := term.2.2.1
     initRes := term.2.2.2, failed := failed, inited := pass2
     puts := putBlocks.map (Ev.out · false), timers := sRun.timers
-    helper := c.waitInit && !initDone }
+    helper := c.waitInit && !initDone
+    -- abort() was called inside the simulator task and an exception left the try block before
+    -- the task awaited anything: the CancelledError has not been delivered yet
+    pendingCancel := phase == .running && ext.2.2 && c.cause.kind.isInner && c.cause.raiseAfter }
 
 /-- the sets handed to `_stop_sblocks` -/
 def setA (bs : List Blk) (started : List Nat) : List Nat := started.filter fun k => (blk bs k).asyncStop
 def setS (bs : List Blk) (started : List Nat) : List Nat := started.filter fun k => !(blk bs k).asyncStop
 
+/-- `try: await asyncio.sleep(0) except CancelledError: pass` between the try block and the
+    clean-up of `run_forever`: a pending cancellation is delivered and swallowed HERE -/
+def consumePending (p : Plan) : Plan := { p with pendingCancel := false }
+
 /-- the clean-up of `run_forever` after the events of `p`; `none`: `oa`/`os` are not
     enumerations of the two sets -/
-def finish (c : Cfg) (p : Plan) : Option Result :=
+def finish (c : Cfg) (p0 : Plan) : Option Result :=
   let bs := c.blocks
+  let p := consumePending p0
   if !(permOf c.oa (setA bs p.started) && permOf c.os (setS bs p.started)) then none
+  else if p.pendingCancel && !c.oa.isEmpty then
+    -- a cancellation that were still pending now would end `_stop_sblocks` at its first await:
+    -- after the stop() calls of the asynchronous set, nothing else
+    some {
+      trace := p.startEvs ++ p.puts ++ c.oa.map Ev.stop
+      started := p.started, startOk := true, phase := p.phase, initRes := p.initRes
+      termTime := p.termTime, endTime := p.termTime
+      tasks := blockTasks bs p.started p.failed ++ (if p.helper then [Task.helper] else [])
+      timers := p.timers
+      error := some (if p.isError then .failure else .cancelled)
+      simDone := true }
   else
     let cl := stopSblocks bs p.failed p.inited p.started p.timers c.oa c.os
     let tasks0 := blockTasks bs p.started p.failed ++ (if p.helper then [Task.helper] else [])
